@@ -30,10 +30,14 @@ var registryErr error
 
 func (p *Program) Registry() (*RegistryFacts, error) {
 	registryOnce.Do(func() {
-		work, err := os.MkdirTemp("/verif/.work", "registry-")
+		base := "/verif/.work"
+		if d := os.Getenv("GOSMT_VERIF_DIR"); d != "" {
+			base = filepath.Join(d, ".work")
+		}
+		work, err := os.MkdirTemp(base, "registry-")
 		if err != nil {
-			os.MkdirAll("/verif/.work", 0755)
-			work, err = os.MkdirTemp("/verif/.work", "registry-")
+			os.MkdirAll(base, 0755)
+			work, err = os.MkdirTemp(base, "registry-")
 			if err != nil {
 				registryErr = err
 				return
